@@ -17,6 +17,9 @@ CLAIMS = {
  "C04": dict(cat="exploration", tech="rapid grammar-based generation (values files, every --set flag family printed from an AST, chart trees) against independent reference models: layered merge, path assignment, chart-tree coalescing; aliasing detected by mutating the result",
    text="Three generated-input properties: Options.MergeValues against the documented flag precedence; every strvals parser applied to a random base against a reference path assignment (typing + frame rule); ToRenderValues over chart trees up to three subchart levels against a reference coalescer, plus immutability of defaults and caller maps.",
    note="Literal classes limited to documented ones; ill-typed assignments and scalar-vs-table clashes of sections/global are counted, not judged."),
+ "C05": dict(cat="exploration", tech="rapid grammar-based chart generation; metamorphic oracles: repetition, load-order permutation, concurrent renders, and twin renders under two host states (environment, cwd, canary files, schema $ref targets)",
+   text="Charts generated from a grammar of deterministic template functions are rendered repeatedly, with permuted load order and concurrently: manifests, hooks with order, notes and error texts must be identical; twin renders under different environment variables, working directories and host file contents must be identical and must not contain host content; env/expandenv must not exist; getHostByName yields nothing unless DNS is enabled (also on real upgrades); schema outcome must not follow host files.",
+   note="Functions documented as random/time/cluster dependent are outside the grammar; process-wide cwd/env are changed and restored by the test."),
  "C06": dict(cat="exploration", tech="rapid generation of (history prefix, operation, dry-run spelling, flag set) with a metamorphic non-dry-run twin on a cloned world",
    text="Every dry-run spelling x random flags x history states; the request log, the storage call log and before/after snapshots must show no write; the twin run proves the case could have written.",
    note="Simulated world as C01."),
